@@ -82,7 +82,7 @@ case(C + "rekey_collide", params={"d": Dict(INT, INT)}, returns=Dict(INT, INT), 
      # FALSE: when both 2j and 2j+1 are keys the LATER one (in insertion order) wins, not always the even one
      canaries={"even-wins": "all(implies(2 * j in d, result[j] == d[2 * j]) for j in result)", "empty": "len(result) == 0"},
      gen=lambda rng: {"d": idict(rng)})
-case(C + "last_wins", params={"xs": List(INT)}, returns=Dict(INT, INT), requires=["all(x >= 0 for x in xs)"],
+case(C + "last_wins", params={"xs": List(INT)}, returns=Dict(INT, INT), requires=["all(x >= 0 for x in xs)"], comp_lastpos_free=True,
      ensures={"dom": "all(x % 3 in result for x in xs)",
               "last": "implies(len(xs) > 0, result[xs[len(xs) - 1] % 3] == xs[len(xs) - 1])"},
      # FALSE: the FIRST occurrence does not win
@@ -294,3 +294,8 @@ case(C + "padded", params={"n": INT}, returns=STR, requires=["n >= 0"],
      # zfill is an uninterpreted function of the receiver: only functionality is known
      ensures={"fn": "result == str(n).zfill(3)"}, canaries={"plain": "result == str(n)", "len3": "len(result) == 3"},
      gen=lambda rng: {"n": rng.choice([0, 7, 42, 123, 4567])})
+
+case(C + "add3", params={"a": INT, "b": INT, "c": INT}, returns=INT, ensures={"v": "result == a + b + c"}, canaries={"w": "result == a"},
+     gen=lambda rng: {"a": rng.randint(0, 3), "b": rng.randint(1, 3), "c": rng.randint(0, 3)})
+case(C + "star_tuple", params={"t": Tuple(INT, INT)}, returns=INT, ensures={"v": "result == 1 + t[0] + t[1]"}, canaries={"w": "result == t[0] + t[1]"},
+     gen=lambda rng: {"t": [rng.randint(0, 3), rng.randint(0, 3)]}, build=lambda d: {"t": tuple(d["t"])})
